@@ -5,7 +5,8 @@
    standard-object.go (setSlot, SlotValue, SetSlotValue, Hierarchy), slotdef.go (reader / writer / accessor
    methods), slot-value.go, slot-boundp.go, slot-makunbound.go, class-precedence.go, class-of.go,
    pkg/cl/typep.go and, for the methods the accessors are, pkg/generic/uax.go (Aux.Call with its dispatch cache
-   keyed by the class NAME of the argument, AddMethod clearing the cache of that generic only).
+   keyed by the class NAME of the argument, AddMethod clearing the cache of that generic only, ClearCaches
+   clearing all of them at the end of classChanged).
 
    Class objects live in a heap (index = allocation order = "pointer"); the registry maps a class name to
    the object currently registered under it.  A redefinition allocates a new object; objects of earlier
@@ -322,9 +323,14 @@ Definition defclass_reg (w : world) (n : nat) (supers : list nat) (slots : list 
 (* ... makeClassesReady ... *)
 Definition defclass_pre (w : world) n supers slots (rorder : list nat) : world :=
   make_ready (defclass_reg w n supers slots) rorder.
-(* ... classChanged *)
-Definition defclass (w : world) n supers slots (rorder corder : list nat) : world :=
+(* ... classChanged, which ends (repo_fixes/C12-4) with generic.ClearCaches: the dispatch cache of every generic
+   function is dropped *)
+Definition clear_caches (w : world) : world :=
+  with_gfs w (map (fun kg => (fst kg, mkGF (g_methods (snd kg)) [])) (gfs w)).
+Definition defclass_merged (w : world) n supers slots (rorder corder : list nat) : world :=
   class_changed (defclass_pre w n supers slots rorder) n corder.
+Definition defclass (w : world) n supers slots (rorder corder : list nat) : world :=
+  clear_caches (defclass_merged w n supers slots rorder corder).
 
 Definition upd_inst (w : world) (i : nat) (vs : varmap) : world :=
   match nth_error (insts w) i with
